@@ -126,7 +126,7 @@ func ruleDateRepair(c *Ctx, rule string) {
 					return
 				}
 				guard := ""
-				for _, dc := range dominatingConds(in.Block()) {
+				for _, dc := range controlConds(in.Block()) {
 					for _, lf := range condLeaves(dc.cond, dc.onTrue) {
 						a, _, ok := c.An.AtomOf(lf.v)
 						if ok && (a.Key == "nil:resp" || a.Key == "nil:err") {
